@@ -67,6 +67,8 @@ def explore(ctx, depth):
     cases = docrun.make_cases(ctx, 20 if depth == 'quick' else 200)
     import gen
     cases += docrun.make_cases(ctx, 0, docs=[gen.shift_doc(ctx.rng) for _ in range(5 if depth == 'quick' else 50)])
+    # the same note / chord text under different clefs in neighbouring spines and again after a clef change (seeded change C13_r5_2)
+    cases += docrun.make_cases(ctx, 0, docs=[gen.clef_echo_doc(ctx.rng) for _ in range(5 if depth == 'quick' else 50)])
     combos = []
     incs = [None, [TC.CORE, TC.SIGNATURES, TC.BARLINES, TC.STRUCTURAL], [TC.NOTE_REST, TC.BARLINES, TC.STRUCTURAL], None]
     excs = [None, [TC.DECORATION], [TC.DURATION], [TC.SIGNATURES, TC.LYRICS]]
